@@ -7,6 +7,16 @@ under which the control flow reaches each step as enabling guards.
 `fixRead` = "a token is read from the pipe only when the process holds none" (the repaired
 `block_on`; `false` describes the pinned behaviour, where a child exit and a token arrival
 handled in the same wake-up gave the process two tokens).
+
+`fixEat` = "when a child's exit is noticed while the process has a cheat of its own outstanding,
+the child's token settles that cheat; an IOU somebody else left on the cheat pipe is only taken
+when the process has no cheat outstanding" (the repaired child-exit branch of `block_on`; `false`
+describes the pinned behaviour, where the cheat pipe was looked at first and a process could be
+left with `(my_tokens, cheats) = (0, 1)` — the state in which `do_force_return_tokens` fails its
+`cheats <= my_tokens` assertion).  Whether an IOU is on the pipe is up to the environment: both
+`childExit` (none taken) and `childExitEat` (one taken) are offered.
+
+`exit` is `do_force_return_tokens` with its two assertions; after it every step is disabled.
 -/
 namespace RedoModel.TokLoop
 
@@ -14,15 +24,18 @@ structure LS where
   my : Nat := 1
   cheats : Nat := 0
   running : Nat := 0
+  exited : Bool := false    -- `do_force_return_tokens` has run (`running` keeps its last value)
   deriving DecidableEq, Repr
 
 inductive LEv
   | childExit      -- a child's exit is noticed: its token is re-created (or settles a cheat), then all but one are released
+  | childExitEat   -- a child's exit is noticed and an IOU is taken from the cheat pipe: the child's token is not re-created
   | tokenRead      -- a byte is taken from the token pipe
   | cheat          -- a token is synthesised (idle, no token, followed by redo-log)
   | start          -- a job is forked (`assert_eq!(my_tokens, 1)`)
   | releaseMine    -- the lock-wait path gives the token up (`assert!(my_tokens >= 1)`)
   | waitAll        -- one poll of `wait_all`
+  | exit           -- `do_force_return_tokens` (explicitly or from `Drop`)
   deriving DecidableEq, Repr
 
 inductive Res
@@ -37,13 +50,26 @@ def release (s : LS) (n : Nat) : LS := { s with my := s.my - n, cheats := s.chea
 /-- `release_except_mine` when the process has a token. -/
 def keepOne (s : LS) : LS := if s.my ≥ 1 then release s (s.my - 1) else s
 
-def lstep (fixRead : Bool) (s : LS) : LEv → Res
+/-- `create_tokens n`: each new token first cancels an outstanding cheat. -/
+def createN (s : LS) : Nat → LS
+  | 0 => s
+  | n + 1 =>
+    let t := createN s n
+    if t.cheats > 0 then { t with cheats := t.cheats - 1 } else { t with my := t.my + 1 }
+
+def lstepG (fixRead fixEat : Bool) (s : LS) (e : LEv) : Res :=
+  if s.exited then .disabled else
+  match e with
   | .childExit =>
     if s.running = 0 then .disabled
     else
       let s1 : LS := if s.cheats > 0 then { s with cheats := s.cheats - 1, running := s.running - 1 }
                      else { s with my := s.my + 1, running := s.running - 1 }
       .ok (keepOne s1)
+  | .childExitEat =>
+    if s.running = 0 then .disabled
+    else if fixEat && s.cheats > 0 then .disabled     -- repaired: the own cheat is settled first
+    else .ok { s with running := s.running - 1 }
   | .tokenRead =>
     if fixRead && s.my ≥ 1 then .disabled else .ok { s with my := s.my + 1 }
   | .cheat =>
@@ -58,13 +84,29 @@ def lstep (fixRead : Bool) (s : LS) : LEv → Res
   | .waitAll =>
     let s1 := keepOne s
     if s1.running > 0 ∧ s1.my ≥ 1 then .ok (release s1 1) else .ok s1
+  | .exit =>
+    -- the tokens of the jobs still running are re-created, all but one are released, then the two assertions
+    let s1 := keepOne (createN s s.running)
+    if s1.cheats > s1.my then .panic                  -- `assert!(state.cheats <= state.my_tokens)`
+    else if s1.cheats ≥ 2 then .panic                 -- `assert!(state.cheats == 0 || state.cheats == 1)`
+    else .ok { s1 with exited := true }
 
-def lrun (fixRead : Bool) (s : LS) : List LEv → Res
+/-- The step with the repaired child-exit branch. -/
+abbrev lstep (fixRead : Bool) (s : LS) (e : LEv) : Res := lstepG fixRead true s e
+
+def lrunG (fixRead fixEat : Bool) (s : LS) : List LEv → Res
   | [] => .ok s
   | e :: es =>
-    match lstep fixRead s e with
-    | .ok s' => lrun fixRead s' es
+    match lstepG fixRead fixEat s e with
+    | .ok s' => lrunG fixRead fixEat s' es
     | .disabled => .disabled
     | .panic => .panic
+
+abbrev lrun (fixRead : Bool) (s : LS) (es : List LEv) : Res := lrunG fixRead true s es
+
+/-- Every outstanding cheat is backed: the synthesised token is still in hand, or it went to a child that is still
+running (whose exit will settle it).  With at most one token and at most one cheat this is the invariant of the
+repaired loop, and it is what the two assertions of `do_force_return_tokens` need. -/
+def Backed (s : LS) : Prop := s.my ≤ 1 ∧ s.cheats ≤ 1 ∧ (s.cheats = 1 → s.my = 1 ∨ s.running ≥ 1)
 
 end RedoModel.TokLoop
